@@ -348,7 +348,8 @@ def run_check(prop, tier, seed):
         if key in seen_classes:
             continue
         seen_classes.add(key)
-        if len(reported) >= int(os.environ.get("HBSIM_MAX_REPORTS", "3")):
+        k0 = match_known(known, prop, viol, sc)
+        if k0 is None and len(reported) >= int(os.environ.get("HBSIM_MAX_REPORTS", "3")):
             also_seen.append("%s in %s (%s), run index %s" % key[:1] + (sc["world"], viol.get("op_kind"), v["seed_index"]) if False else "%s world=%s op=%s run=%s" % (viol["class"], sc["world"], viol.get("op_kind"), v["seed_index"]))
             continue
         rp = mini.Replayer(hb.command(v["variant"]), tmp, env=hb.run_env(v["variant"]), timeout=60 if v["variant"] != "E" else 3600)
@@ -440,7 +441,7 @@ def run_check(prop, tier, seed):
     if foreign:
         log("foreign violations (owned by other properties, not reported here): %s" % foreign)
     for k, path in known_hits:
-        log("KNOWN-FINDING: property=%s %s (replay=%s)" % (prop, k["text"], path))
+        log("KNOWN-FINDING: %s (replay=%s)" % (k["text"] if k["text"].startswith("property=") else "property=%s %s" % (prop, k["text"]), path))
     for viol, path in reported:
         log("violation class=%s op=%s: %s" % (viol["class"], viol.get("op_kind"), viol.get("detail", "")[:300]))
         log("VIOLATION property=%s replay=%s" % (prop, path))
